@@ -84,7 +84,7 @@ def make(fmt, sym):
 
 def job(jc, spec):
     fmt = spec
-    hook.install()
+    hook.install(symkeys=('androguard.core.apk',))
     from androguard.core import apk as apkmod
     apkmod.unpack = SymStructModule.unpack
     apkmod.pack = SymStructModule.pack
@@ -172,7 +172,7 @@ def job(jc, spec):
 
 
 def run(ctx):
-    hook.install()
+    hook.install(symkeys=('androguard.core.apk',))
     ctx.functions_encoded = FUNCS
     ctx.bounds = dict(pairs=3, pair_ids='all 2^96 id triples', signers='block 0: 2 signers (leaves of the first symbolic: algorithm '
                       'ids, digest, certificate, attributes, signature, public key, SDK bounds), blocks 1-2: one signer each',
